@@ -120,6 +120,7 @@ class Interp:
         self.getattribute_hook = False   # route Parameter slot reads through Parameter.__getattribute__
         self.setattr_hook = None         # callable(interp, st, ref, attr, val) -> results or None
         self.attr_hook = None            # callable(interp, st, val, attr) -> Val or None (contract supplied)
+        self.sym_fields = None           # set of attribute names modelled as field maps on symbolic objects
         self._solver = None
         self._n_ax = 0
         from . import builtins_lib
